@@ -16,6 +16,7 @@ META = dict(
 )
 
 QS = ['CvoR', 'CpoR', 'UoRT', 'HoRT', 'SoR', 'FoRT', 'GoRT']
+DIMENSIONAL = {'HoRT': ('H', True), 'GoRT': ('G', True), 'SoR': ('S', False), 'UoRT': ('U', True), 'FoRT': ('F', True), 'CpoR': ('Cp', False), 'CvoR': ('Cv', False)}
 NAMES = dict(r=['A', 'AB', 'A2B'], p=['B', 'A2', 'BA'], t=['TS', 'AB_TS'])
 
 
@@ -103,6 +104,16 @@ def h_state_delta(ctx, kind, nr, npr, nts, q):
             ctx.eq('%s_act = delta(act)' % q, g('get_%s_act' % q), t - r)
             ctx.eq('%s_act(rev) = delta(act, rev)' % q, g('get_%s_act' % q, rev=True), t - p)
             ctx.eq('%s_act(fwd) - %s_act(rev) = delta' % (q, q), g('get_%s_act' % q) - g('get_%s_act' % q, rev=True), p - r)
+    if q in DIMENSIONAL:
+        # the same change in units (x R, x T for energies)
+        from pmutt import constants as c
+        name, energy = DIMENSIONAL[q]
+        fac = c.R('kJ/mol/K') * (T if energy else 1.0)
+        un = 'kJ/mol' if energy else 'kJ/mol/K'
+        ctx.eq('delta_%s(kJ/mol) = products - reactants' % name, g('get_delta_%s' % name, units=un), (p - r) * fac)
+        if nts:
+            ctx.eq('delta_%s(kJ/mol, act) = TS - reactants' % name, g('get_delta_%s' % name, units=un, act=True), (t - r) * fac)
+            ctx.eq('delta_%s(kJ/mol, act, rev) = TS - products' % name, g('get_delta_%s' % name, units=un, act=True, rev=True), (t - p) * fac)
     ctx.true('caller-supplied condition dictionaries unmodified', _same(before, kw))
     # every species saw its own block merged over the common conditions, nobody else's
     for side in (Rs, Ps, Ts):
@@ -194,9 +205,42 @@ def h_reuse(ctx, kind):
     ctx.eq('second call with the same block at a new T', got, _sum(Ps, 'HoRT', T2, P, blocks) - _sum(Rs, 'HoRT', T2, P, blocks))
 
 
+TRICKY = [['H2_gas', 'H2'], ['Ar', 'A'], ['CH3_s', 'CH3_'], ['OHk', 'kwargs'], ['W_w', 'Ag_kwargs']]
+
+
+def h_names(ctx, kind, names):
+    """per-species blocks reach exactly their species whatever the species are called: names ending in characters of
+    '_kwargs', names that are prefixes of one another, a name that itself ends in '_kwargs'"""
+    cls, extra = _cls(kind)
+    sp = [StubSpecies(ctx, n) for n in names]
+    prod = StubSpecies(ctx, 'P0')
+    nu = [ctx.real('nu%d' % i, 0.25, 4) for i in range(len(sp))]
+    rxn = cls(reactants=sp, reactants_stoich=list(nu), products=[prod], products_stoich=[1.], **extra)
+    T = ctx.real('T', 50, 5000)
+    P = ctx.real('P', 1e-4, 1e3)
+    kw = dict(T=T, P=P)
+    own = {}
+    for i, s in enumerate(sp):
+        own[s.name] = ctx.real('P_block%d' % i, 1e-4, 1e3)
+        kw['%s_kwargs' % s.name] = {'P': own[s.name]}
+    before = _snapshot(kw)
+    for q in ('HoRT', 'GoRT'):
+        want = 0
+        for s, n in zip(sp, nu):
+            want = want + n * ref_val(s, q, T, own[s.name])
+        ctx.eq('%s_state(reactants): every species evaluated at the pressure of its own block' % q, getattr(rxn, 'get_%s_state' % q)(state='reactants', **kw), want)
+        ctx.eq('delta_%s: product at the common pressure, reactants at their own' % q, getattr(rxn, 'get_delta_%s' % q)(**kw), ref_val(prod, q, T, P) - want)
+    ctx.true('caller-supplied condition dictionaries unmodified', _same(before, kw))
+
+
 def groups(tier):
     th = tier == 'thorough'
     g = []
+    for kind in ('Reaction', 'ChemkinReaction', 'SurfaceReaction'):
+        for names in TRICKY:
+            if kind != 'Reaction' and not th and names is not TRICKY[0]:
+                continue
+            g.append(dict(name='%s/species-names/%s' % (kind, '+'.join(names)), harness=h_names, params=dict(kind=kind, names=names)))
     shapes = [(1, 1, 0), (2, 1, 1), (1, 2, 2), (2, 2, 1)]
     if th:
         shapes += [(3, 2, 0), (2, 3, 2), (3, 3, 1)]
